@@ -59,6 +59,11 @@ CLAIMED = {
          "Every built-in test of every schema type (incl. all Not() forms), required / not_nil / coerce for every type, the front-end decode issues (invalid_json via zjson and zhttp, invalid_form) and Custom schema issues are produced on the real code at top level, as struct field and as slice element, in Parse and Validate, under the full product of test-level {none, Message, MessageFunc} x execution-level {none, WithIssueFormatter} x global {default formatter, i18n with default language en|es x context language unset|en|es|unknown x default|custom lang key}. Each issue must carry the documented code, the node's type, the test's parameter, a reference to the offending value, a non-empty message without {{placeholder}}, taken from the most specific level and in the context language if shipped, else the default language.",
          "Expected text is rendered from the shipped maps by the harness. Bool True/False are only required to be complete, not to use a particular code. The catalogue is finite and enumerated completely; nothing beyond it is sampled.",
          "DESIGN.md section 4 C11"),
+
+ "C03": ("full-product enumeration of (leaf kind, input representation, coercer option, placement) on the real code vs. the documented coercion table; frame condition on untouched destinations",
+         "All eight leaf kinds x 49 input representations (every Go numeric width, decimal/exponent/ParseBool/on-off strings, RFC3339 and layout strings, unix seconds, JSON-typed floats, []byte, lists, maps) x coercer option {default, WithCoercer, global conf.Coercers override, WithCoercer applied through Ptr, Time.Format with three layouts, Time.FormatFunc} x placement {top, struct field, slice element, behind pointer, struct in slice, pre-allocated pointer field} are parsed on the real code. On success the destination leaf must equal the documented coercion (and the input must have one); documented coercions must not be rejected; absent optional inputs, pointer fields with absent input and fields the schema does not name must be untouched; slices of length 0..3 in five representations keep length and order (scalar boxing, custom slice coercer).",
+         "Documented table = docs parsing table + DESIGN Appendix A. Values outside the alphabet are not examined.",
+         "DESIGN.md section 4 C03"),
 }
 NOT_YET = "check not built yet in this round (work in progress; see DESIGN.md section 4)"
 def main():
